@@ -129,3 +129,317 @@ Proof.
     + exists f, (set_phase fl (Done (Ret v))). cbn. unfold upd. rewrite Nat.eqb_refl. auto.
     + injection E as ->. apply PM. exact H.
 Qed.
+
+Lemma inv_rephase sh c f fl p r' :
+  Inv sh c -> flights c f = Some fl -> is_done (fphase fl) = false -> is_done p = false ->
+  (forall k0, r' k0 = if Nat.eqb k0 (fkey fl) then (if is_running p then 1 else 0) else running c k0) ->
+  forall st, Inv sh {| table := table c; flights := upd (flights c) f (Some (set_phase fl p)); nfl := nfl c; cache := cache c;
+               callers := callers c; running := r'; started := st |}.
+Proof.
+  intros (I0 & I1 & I2 & I3 & I4 & I5 & I6 & I7) Ff ND NDp Hr st.
+  assert (Tf : table c (fkey fl) = Some f) by (apply I1; assumption).
+  assert (Mono : forall g gl, flights c g = Some gl -> exists gl', upd (flights c) f (Some (set_phase fl p)) g = Some gl' /\ fkey gl' = fkey gl /\ fout gl' = fout gl).
+  { intros g gl G. unfold upd. destruct (Nat.eqb_spec g f).
+    - subst. rewrite Ff in G. injection G as <-. eexists; split; [reflexivity|]. split; reflexivity.
+    - exists gl. auto. }
+  set (c' := {| table := table c; flights := upd (flights c) f (Some (set_phase fl p)); nfl := nfl c; cache := cache c;
+               callers := callers c; running := r'; started := st |}).
+  assert (PM : forall k0 v, produced c k0 v -> produced c' k0 v) by (intros k0 v; apply produced_mono; exact Mono).
+  refine (conj _ (conj _ (conj _ (conj _ (conj _ (conj _ (conj _ _))))))); cbn.
+  - intros g Hg. unfold upd. destruct (Nat.eqb_spec g f); [|apply I0; assumption]. subst. rewrite (I0 _ Hg) in Ff. discriminate.
+  - intros g gl G D. unfold upd in G. destruct (Nat.eqb_spec g f).
+    + injection G as <-. subst g. exact Tf.
+    + apply I1; assumption.
+  - intros k0 g T. destruct (I2 _ _ T) as (gl & G & K). unfold upd. destruct (Nat.eqb_spec g f).
+    + subst g. rewrite Ff in G. injection G as <-. eexists; split; [reflexivity|exact K].
+    + eauto.
+  - intros k0. rewrite Hr. unfold run1; cbn. destruct (Nat.eqb_spec k0 (fkey fl)) as [->|Hk].
+    + rewrite Tf. unfold upd. rewrite Nat.eqb_refl. reflexivity.
+    + rewrite I3. unfold run1. destruct (table c k0) as [g|] eqn:T; [|reflexivity].
+      destruct (I2 _ _ T) as (gl & G & K). unfold upd. destruct (Nat.eqb_spec g f); [|reflexivity].
+      subst g. rewrite Ff in G. injection G as <-. congruence.
+  - intros j g o0 Hj. destruct (I4 _ _ _ Hj) as (gl & G & P). unfold upd. destruct (Nat.eqb_spec g f).
+    + subst g. rewrite Ff in G. injection G as <-. rewrite P in ND. discriminate.
+    + eauto.
+  - intros j g Hj. destruct (I5 _ _ Hj) as (gl & G & T). unfold upd. destruct (Nat.eqb_spec g f).
+    + subst g. rewrite Ff in G. injection G as <-. eexists; split; [reflexivity|exact T].
+    + eauto.
+  - intros g gl o0 G P. unfold upd in G. destruct (Nat.eqb_spec g f).
+    + injection G as <-. cbn in P. rewrite P in NDp. discriminate.
+    + destruct (I6 _ _ _ G P) as [H|[(v & -> & H)|H]]; [left; assumption| |right; right; assumption].
+      right; left. exists v. split; [reflexivity|]. apply PM in H. exact H.
+  - intros k0 v Hc. apply PM, I7. exact Hc.
+Qed.
+
+Lemma inv_gone sh c i : Inv sh c ->
+  Inv sh {| table := table c; flights := flights c; nfl := nfl c; cache := cache c; callers := upd (callers c) i Gone;
+            running := running c; started := started c |}.
+Proof.
+  intros (I0 & I1 & I2 & I3 & I4 & I5 & I6 & I7).
+  refine (conj I0 (conj I1 (conj I2 (conj I3 (conj _ (conj _ (conj I6 I7))))))); cbn.
+  - intros j g o0 Hj. unfold upd in Hj. destruct (Nat.eqb_spec j i); [discriminate|eauto].
+  - intros j g Hj. unfold upd in Hj. destruct (Nat.eqb_spec j i); [discriminate|eauto].
+Qed.
+
+Lemma inv_start sh c f : Inv sh c -> Inv sh (fst (step sh c (Start f))).
+Proof.
+  intros I. cbn [step]. destruct (flights c f) as [fl|] eqn:Ff; [|exact I].
+  destruct (fphase fl) eqn:P; try exact I.
+  assert (ND : is_done (fphase fl) = false) by (rewrite P; reflexivity).
+  assert (NR : is_running (fphase fl) = false) by (rewrite P; reflexivity).
+  destruct (cache c (fkey fl)) as [v|] eqn:Ck; cbn [fst].
+  - rewrite <- NR. apply inv_finish; try assumption. right; left. exists v. split; [reflexivity|].
+    destruct I as (_ & _ & _ & _ & _ & _ & _ & I7). apply I7. exact Ck.
+  - destruct (fyields fl) as [|m] eqn:Y; cbn [fst].
+    + rewrite <- NR.
+      apply (inv_finish sh {| table := table c; flights := flights c; nfl := nfl c; cache := cache c; callers := callers c;
+                              running := running c; started := upd (started c) (fkey fl) (S (started c (fkey fl))) |}); try assumption.
+      left; reflexivity.
+    + apply inv_rephase; try assumption; try reflexivity.
+      intros k0. unfold upd. destruct (Nat.eqb_spec k0 (fkey fl)); [|reflexivity]. cbn.
+      destruct I as (_ & I1 & _ & I3 & _). rewrite I3. unfold run1. rewrite (I1 _ _ Ff ND), Ff, NR. reflexivity.
+Qed.
+
+Lemma inv_stepb sh c f : Inv sh c -> Inv sh (fst (step sh c (Step f))).
+Proof.
+  intros I. cbn [step]. destruct (flights c f) as [fl|] eqn:Ff; [|exact I].
+  destruct (fphase fl) as [|[|m]|] eqn:P; try exact I; cbn [fst].
+  - change true with (is_running (Running 0)). rewrite <- P. apply inv_finish; try assumption.
+    + rewrite P; reflexivity.
+    + left; reflexivity.
+  - apply inv_rephase; try assumption; try reflexivity; [rewrite P; reflexivity|].
+    intros k0. destruct (Nat.eqb_spec k0 (fkey fl)) as [->|]; [|reflexivity]. cbn.
+    destruct I as (_ & I1 & _ & I3 & _). rewrite I3. unfold run1.
+    assert (ND : is_done (fphase fl) = false) by (rewrite P; reflexivity).
+    rewrite (I1 _ _ Ff ND), Ff, P. reflexivity.
+Qed.
+
+Lemma inv_unreg sh c f : Inv sh c -> Inv sh (fst (step sh c (Unreg f))).
+Proof.
+  intros I. cbn [step]. destruct (flights c f) as [fl|] eqn:Ff; [|exact I].
+  destruct (fphase fl) as [| |o] eqn:P; try exact I.
+  destruct (table c (fkey fl)) as [f'|] eqn:Tk; [|exact I].
+  destruct (Nat.eqb_spec f' f) as [->|]; [|exact I]. cbn [fst].
+  destruct I as (I0 & I1 & I2 & I3 & I4 & I5 & I6 & I7).
+  refine (conj I0 (conj _ (conj _ (conj _ (conj _ (conj _ (conj I6 I7))))))); cbn.
+  - intros g gl G D. specialize (I1 _ _ G D). unfold upd. destruct (Nat.eqb_spec (fkey gl) (fkey fl)) as [E|]; [|assumption].
+    rewrite E, Tk in I1. injection I1 as <-. rewrite Ff in G. injection G as <-. rewrite P in D. discriminate.
+  - intros k0 g T. unfold upd in T. destruct (Nat.eqb_spec k0 (fkey fl)); [discriminate|eauto].
+  - intros k0. rewrite I3. unfold run1; cbn. unfold upd. destruct (Nat.eqb_spec k0 (fkey fl)) as [->|]; [|reflexivity].
+    rewrite Tk, Ff, P. reflexivity.
+  - intros j g o0 Hj. unfold deliver in Hj. destruct (callers c j) as [|f0|g0 o1|] eqn:Cj; try discriminate.
+    + destruct (Nat.eqb_spec f0 f); [|discriminate]. injection Hj as <- <-. eauto.
+    + injection Hj as -> ->. eauto.
+  - intros j g Hj. unfold deliver in Hj. destruct (callers c j) as [|f0|g0 o1|] eqn:Cj; try discriminate.
+    destruct (Nat.eqb_spec f0 f); [discriminate|]. injection Hj as ->. destruct (I5 _ _ Cj) as (gl & G & T).
+    exists gl. split; [assumption|]. unfold upd. destruct (Nat.eqb_spec (fkey gl) (fkey fl)) as [E|]; [|assumption].
+    rewrite E, Tk in T. congruence.
+Qed.
+
+Lemma inv_cancel sh c i : Inv sh c -> Inv sh (fst (step sh c (Cancel i))).
+Proof.
+  intros I. cbn [step]. destruct (callers c i) as [|f|g o|] eqn:Ci; try exact I; cbn [fst].
+  - apply inv_gone; assumption.
+  - destruct sh; cbn [fst]; [apply inv_gone; assumption|].
+    destruct (flights c f) as [fl|] eqn:Ff; cbn [fst]; [|apply inv_gone; assumption].
+    destruct (fphase fl) eqn:P; cbn [fst]; try (apply inv_gone; assumption).
+    + rewrite <- P. apply inv_finish; [apply inv_gone; assumption|exact Ff|rewrite P; reflexivity|right; right; auto].
+    + rewrite <- P. apply inv_finish; [apply inv_gone; assumption|exact Ff|rewrite P; reflexivity|right; right; auto].
+Qed.
+
+Lemma inv_step sh c e : Inv sh c -> Inv sh (fst (step sh c e)).
+Proof. destruct e; [apply inv_call|apply inv_start|apply inv_stepb|apply inv_unreg|apply inv_cancel]. Qed.
+
+Lemma inv_run_from sh evs : forall c, Inv sh c -> Inv sh (run_from sh c evs).
+Proof. induction evs as [|e evs IH]; intros c I; cbn; [exact I|]. apply IH, inv_step, I. Qed.
+
+Theorem inv_reachable sh evs : Inv sh (run sh evs).
+Proof. apply inv_run_from, inv_init. Qed.
+
+(* ---------- 1. never two bodies of one key at a time ---------- *)
+Theorem sf_one_body sh evs k : running (run sh evs) k <= 1.
+Proof.
+  destruct (inv_reachable sh evs) as (_ & _ & _ & I3 & _). rewrite I3. unfold run1.
+  destruct (table _ k); [|lia]. destruct (flights _ _); [|lia]. destruct (is_running _); lia.
+Qed.
+
+(* a call made while a task is registered for its key creates nothing and starts nothing: it waits for that task
+   (or takes its outcome at once when the task has just finished) *)
+Theorem sf_join sh evs i k n o f : let c := run sh evs in
+  table c k = Some f -> callers c i = Idle ->
+  let c' := fst (step sh c (Call i k n o)) in
+  snd (step sh c (Call i k n o)) = false /\ flights c' = flights c /\ started c' = started c /\ running c' = running c /\
+  (callers c' i = Waiting f \/ exists o', callers c' i = Got (Some f) o' /\ phase_of c f = Some (Done o')).
+Proof.
+  intros c T Ci. destruct (inv_reachable sh evs) as (_ & _ & I2 & _). fold c in I2.
+  destruct (I2 _ _ T) as (fl & Ff & _). cbn [step]. rewrite Ci, T, Ff. cbn.
+  repeat (split; [reflexivity|]). unfold upd. rewrite Nat.eqb_refl.
+  destruct (fphase fl) eqn:P; [left; reflexivity|left; reflexivity|right]. exists o0. split; [reflexivity|].
+  unfold phase_of. rewrite Ff. cbn. congruence.
+Qed.
+
+(* ---------- 2. the outcome a caller receives is the outcome of the task it joined ---------- *)
+Theorem sf_shared_outcome sh evs i f o : callers (run sh evs) i = Got (Some f) o -> phase_of (run sh evs) f = Some (Done o).
+Proof.
+  intros H. destruct (inv_reachable sh evs) as (_ & _ & _ & _ & I4 & _). destruct (I4 _ _ _ H) as (fl & Ff & P).
+  unfold phase_of. rewrite Ff. cbn. congruence.
+Qed.
+
+(* a waiting caller's task is registered: its done-callback will find and wake the caller *)
+Theorem sf_no_orphan sh evs i f : callers (run sh evs) i = Waiting f ->
+  exists fl, flights (run sh evs) f = Some fl /\ table (run sh evs) (fkey fl) = Some f.
+Proof. intros H. destruct (inv_reachable sh evs) as (_ & _ & _ & _ & _ & I5 & _). eauto. Qed.
+
+Theorem sf_delivered sh c f fl o : flights c f = Some fl -> fphase fl = Done o -> table c (fkey fl) = Some f ->
+  let c' := fst (step sh c (Unreg f)) in
+  forall j, callers c j = Waiting f -> callers c' j = Got (Some f) o.
+Proof. intros Ff P T c' j Cj. unfold c'. cbn [step]. rewrite Ff, P, T, Nat.eqb_refl. cbn. unfold deliver. rewrite Cj, Nat.eqb_refl. reflexivity. Qed.
+
+(* what a finished task holds: what its own body did, or a value some body for that key returned earlier *)
+Theorem sf_outcome_provenance evs f fl o : let c := run true evs in
+  flights c f = Some fl -> fphase fl = Done o -> o = fout fl \/ exists v, o = Ret v /\ produced c (fkey fl) v.
+Proof.
+  intros c Ff P. destruct (inv_reachable true evs) as (_ & _ & _ & _ & _ & _ & I6 & _).
+  destruct (I6 _ _ _ Ff P) as [H|[H|(H & _)]]; [left; assumption|right; assumption|discriminate].
+Qed.
+
+(* bodies never produce CancelledError by themselves *)
+Definition good_event (e : event) := match e with Call _ _ _ Cancelled => False | _ => True end.
+Definition NoCancelSpec (c : cfg) := forall f fl, flights c f = Some fl -> fout fl <> Cancelled.
+
+Lemma ncs_upd c f fl p (F : nat -> option flight) :
+  NoCancelSpec c -> flights c f = Some fl -> (forall g, F g = upd (flights c) f (Some (set_phase fl p)) g) ->
+  forall g gl, F g = Some gl -> fout gl <> Cancelled.
+Proof.
+  intros N Ff HF g gl G. rewrite HF in G. unfold upd in G. destruct (Nat.eqb_spec g f).
+  - injection G as <-. cbn. eapply N; eauto.
+  - eapply N; eauto.
+Qed.
+
+Lemma ncs_step sh c e : good_event e -> NoCancelSpec c -> NoCancelSpec (fst (step sh c e)).
+Proof.
+  intros Hg N. destruct e as [i k n o|f|f|f|i]; cbn [step].
+  - destruct (callers c i); try exact N. destruct (table c k) as [f|].
+    + destruct (flights c f); exact N.
+    + intros g gl G. cbn in G. unfold upd in G. destruct (Nat.eqb_spec g (nfl c)); [|eapply N; eauto].
+      injection G as <-. cbn. destruct o; cbn in Hg; [discriminate|discriminate|contradiction].
+  - destruct (flights c f) as [fl|] eqn:Ff; [|exact N]. destruct (fphase fl); try exact N.
+    destruct (cache c (fkey fl)); [unfold NoCancelSpec; cbn; eapply (ncs_upd c); eauto; reflexivity|].
+    destruct (fyields fl); unfold NoCancelSpec; cbn; eapply (ncs_upd c); eauto; reflexivity.
+  - destruct (flights c f) as [fl|] eqn:Ff; [|exact N]. destruct (fphase fl) as [|[|m]|]; try exact N; unfold NoCancelSpec; cbn; eapply (ncs_upd c); eauto; reflexivity.
+  - destruct (flights c f) as [fl|] eqn:Ff; [|exact N]. destruct (fphase fl); try exact N.
+    destruct (table c (fkey fl)) as [f'|]; [|exact N]. destruct (Nat.eqb f' f); exact N.
+  - destruct (callers c i) as [|f|g o|]; try exact N. destruct sh; [exact N|].
+    destruct (flights c f) as [fl|] eqn:Ff; [|exact N]. destruct (fphase fl); try exact N; unfold NoCancelSpec; cbn; eapply (ncs_upd c); eauto; reflexivity.
+Qed.
+
+Lemma ncs_run sh evs : Forall good_event evs -> NoCancelSpec (run sh evs).
+Proof.
+  unfold run. assert (H : NoCancelSpec init) by (intros f fl; discriminate). revert H. generalize init.
+  induction evs as [|e evs IH]; intros c N Hg; cbn; [exact N|]. inversion Hg; subst. apply IH; [apply ncs_step; assumption|assumption].
+Qed.
+
+(* with callers awaiting through shield, nobody is ever handed a CancelledError produced by someone else's cancellation *)
+Theorem sf_no_foreign_cancel evs i f o : Forall good_event evs -> callers (run true evs) i = Got f o -> o <> Cancelled.
+Proof.
+  intros Hg H. destruct f as [f|].
+  - destruct (inv_reachable true evs) as (_ & _ & _ & _ & I4 & _). destruct (I4 _ _ _ H) as (fl & Ff & P).
+    destruct (sf_outcome_provenance evs f fl o Ff P) as [->|(v & -> & _)]; [|discriminate]. eapply ncs_run; eauto.
+  - (* Got None is never produced *)
+    exfalso. revert H. unfold run. assert (H0 : forall j o, callers init j <> Got None o) by (intros; discriminate).
+    revert H0. generalize init. clear Hg. induction evs as [|e evs IH]; intros c H0 H; cbn in H; [eapply H0; eauto|].
+    eapply IH; [|exact H]. clear H IH. intros j o'. destruct e as [i0 k n o0|f0|f0|f0|i0]; cbn [step].
+    + destruct (callers c i0) eqn:E; try apply H0. destruct (table c k) as [f1|].
+      * destruct (flights c f1) as [fl|]; [|apply H0]. cbn. unfold upd. destruct (Nat.eqb_spec j i0); [|apply H0].
+        destruct (fphase fl); discriminate.
+      * cbn. unfold upd. destruct (Nat.eqb_spec j i0); [discriminate|apply H0].
+    + destruct (flights c f0) as [fl|]; [|apply H0]. destruct (fphase fl); try apply H0.
+      destruct (cache c (fkey fl)); [apply H0|]. destruct (fyields fl); apply H0.
+    + destruct (flights c f0) as [fl|]; [|apply H0]. destruct (fphase fl) as [|[|m]|]; apply H0.
+    + destruct (flights c f0) as [fl|]; [|apply H0]. destruct (fphase fl); try apply H0.
+      destruct (table c (fkey fl)) as [f'|]; [|apply H0]. destruct (Nat.eqb f' f0); [|apply H0].
+      cbn. unfold deliver. specialize (H0 j). destruct (callers c j); try apply H0; try discriminate.
+      destruct (Nat.eqb f f0); discriminate.
+    + destruct (callers c i0) eqn:E; try apply H0; cbn; unfold upd; destruct (Nat.eqb_spec j i0); try discriminate; apply H0.
+Qed.
+
+(* ---------- 3. cancelling a waiting caller changes nothing for anybody else ---------- *)
+Definition same_but (i : nat) (c c' : cfg) : Prop :=
+  table c = table c' /\ flights c = flights c' /\ nfl c = nfl c' /\ cache c = cache c' /\ running c = running c' /\
+  started c = started c' /\ (forall j, j <> i -> callers c j = callers c' j) /\ callers c i <> Idle /\ callers c' i <> Idle.
+
+Lemma deliver_not_idle cs f o i : cs i <> Idle -> deliver cs f o i <> Idle.
+Proof. unfold deliver. destruct (cs i); try congruence. destruct (Nat.eqb f0 f); congruence. Qed.
+
+Lemma same_step i c c' e : same_but i c c' ->
+  same_but i (fst (step true c e)) (fst (step true c' e)) /\
+  (match e with Call j _ _ _ | Cancel j => j <> i | _ => True end -> snd (step true c e) = snd (step true c' e)).
+Proof.
+  destruct c as [t fs n ca cs r st], c' as [t' fs' n' ca' cs' r' st']. unfold same_but. cbn.
+  intros (<- & <- & <- & <- & <- & <- & Hc & Hi & Hi').
+  destruct e as [j k m o|f|f|f|j]; cbn.
+  - destruct (Nat.eq_dec j i) as [->|Hj].
+    + destruct (cs i) eqn:E, (cs' i) eqn:E'; try congruence; cbn; (split; [repeat split; try assumption; congruence|intro; congruence]).
+    + rewrite <- (Hc _ Hj). destruct (cs j) eqn:E; cbn; try (split; [repeat split; assumption|reflexivity]).
+      destruct (t k) as [f|].
+      * destruct (fs f) as [fl|]; cbn; [|split; [repeat split; assumption|reflexivity]].
+        split; [|reflexivity]. repeat split; unfold upd; try reflexivity.
+        -- intros j0 Hj0. destruct (Nat.eqb j0 j); [reflexivity|auto].
+        -- destruct (Nat.eqb_spec i j); [congruence|assumption].
+        -- destruct (Nat.eqb_spec i j); [congruence|assumption].
+      * cbn. split; [|reflexivity]. repeat split; unfold upd; try reflexivity.
+        -- intros j0 Hj0. destruct (Nat.eqb j0 j); [reflexivity|auto].
+        -- destruct (Nat.eqb_spec i j); [congruence|assumption].
+        -- destruct (Nat.eqb_spec i j); [congruence|assumption].
+  - destruct (fs f) as [fl|]; [|split; [repeat split; assumption|reflexivity]].
+    destruct (fphase fl); try (split; [repeat split; assumption|reflexivity]).
+    destruct (ca (fkey fl)); [cbn; split; [repeat split; assumption|reflexivity]|].
+    destruct (fyields fl); cbn; (split; [repeat split; assumption|reflexivity]).
+  - destruct (fs f) as [fl|]; [|split; [repeat split; assumption|reflexivity]].
+    destruct (fphase fl) as [|[|m0]|]; cbn; (split; [repeat split; assumption|reflexivity]).
+  - destruct (fs f) as [fl|]; [|split; [repeat split; assumption|reflexivity]].
+    destruct (fphase fl); try (split; [repeat split; assumption|reflexivity]).
+    destruct (t (fkey fl)) as [f'|]; [|split; [repeat split; assumption|reflexivity]].
+    destruct (Nat.eqb f' f); cbn; [|split; [repeat split; assumption|reflexivity]].
+    split; [|reflexivity]. repeat split; try reflexivity.
+    + intros j0 Hj0. unfold deliver. rewrite (Hc _ Hj0). reflexivity.
+    + apply deliver_not_idle; assumption.
+    + apply deliver_not_idle; assumption.
+  - destruct (Nat.eq_dec j i) as [->|Hj].
+    + destruct (cs i) eqn:E, (cs' i) eqn:E'; try congruence; cbn;
+        (split; [repeat split; unfold upd; try reflexivity; try assumption; try congruence;
+                 try (intros j0 Hj0; destruct (Nat.eqb_spec j0 i); [congruence|auto]);
+                 try (rewrite Nat.eqb_refl; discriminate)|intro; congruence]).
+    + rewrite <- (Hc _ Hj). destruct (cs j) eqn:E; cbn; try (split; [repeat split; assumption|reflexivity]);
+        (split; [|reflexivity]); repeat split; unfold upd; try reflexivity;
+        try (intros j0 Hj0; destruct (Nat.eqb j0 j); [reflexivity|auto]);
+        try (destruct (Nat.eqb_spec i j); [congruence|assumption]).
+Qed.
+
+Lemma same_run i evs : forall c c', same_but i c c' -> same_but i (run_from true c evs) (run_from true c' evs).
+Proof. induction evs as [|e evs IH]; intros c c' H; cbn; [exact H|]. apply IH. apply same_step. exact H. Qed.
+
+Theorem sf_cancel_local c i f evs : callers c i = Waiting f ->
+  same_but i (run_from true (fst (step true c (Cancel i))) evs) (run_from true c evs).
+Proof.
+  intros Ci. apply same_run. cbn [step]. rewrite Ci. cbn. unfold same_but; cbn. repeat split; try reflexivity.
+  - intros j Hj. unfold upd. destruct (Nat.eqb_spec j i); [contradiction|reflexivity].
+  - unfold upd. rewrite Nat.eqb_refl. discriminate.
+  - rewrite Ci. discriminate.
+Qed.
+
+Corollary sf_cancel_local_others c i f evs j : callers c i = Waiting f -> j <> i ->
+  callers (run_from true (fst (step true c (Cancel i))) evs) j = callers (run_from true c evs) j.
+Proof. intros Ci Hj. destruct (sf_cancel_local c i f evs Ci) as (_ & _ & _ & _ & _ & _ & H & _). apply H, Hj. Qed.
+
+(* awaiting the shared task directly (no shield) does not have this property: one waiter of three is cancelled,
+   the other two receive CancelledError instead of the body's result *)
+Definition refute_pre := [Call 0 0 2 (Ret 5); Call 1 0 0 (Ret 6); Call 2 0 0 (Ret 7); Start 0].
+Definition refute_post := [Step 0; Step 0; Unreg 0].
+Theorem sf_cancel_local_unshielded_refuted :
+  let c := run false refute_pre in
+  callers c 1 = Waiting 0 /\
+  callers (run_from false c refute_post) 0 = Got (Some 0) (Ret 5%Z) /\
+  callers (run_from false (fst (step false c (Cancel 1))) (Unreg 0 :: refute_post)) 0 = Got (Some 0) Cancelled /\
+  callers (run_from true (fst (step true c (Cancel 1))) refute_post) 0 = Got (Some 0) (Ret 5%Z).
+Proof. vm_compute. repeat split. Qed.
